@@ -42,7 +42,13 @@ namespace
         if (a == "leave_scope") return runtime::action::leave_scope;
         return runtime::action::invalid;
     }
-    size_t nctx(runtime& rt) { return (size_t)(rt.context_end() - rt.context_begin()); }
+    // scripts that still have something to execute (a step action leaves the emptied context of a finished script in the list)
+    size_t nctx(runtime& rt)
+    {
+        size_t n = 0;
+        for (auto it = rt.context_begin(); it != rt.context_end(); ++it) { if (!(*it)->empty()) { n++; } }
+        return n;
+    }
 }
 
 static void cmd_ctl(const J& c)
